@@ -58,14 +58,16 @@ func (o op) String() string {
 }
 
 type dsys struct {
-	s       tcell.SimulationScreen
-	cs      string
-	enc     xenc.Encoding
-	sh      *shadow.Screen
-	ops     []op
-	stale   bool // SetStyle since the last full redraw
+	s             tcell.SimulationScreen
+	cs            string
+	enc           xenc.Encoding
+	sh            *shadow.Screen
+	ops           []op
+	stale         bool // SetStyle since the last full redraw
 	pendingResize []([2]int)
-	cx, cy  int
+	cx, cy        int
+	altx, alty    int
+	altOK         bool
 }
 
 func encode(enc xenc.Encoding, r rune) ([]byte, bool) {
@@ -121,7 +123,7 @@ func (d *dsys) Key() string {
 		c := &d.sh.Cells[i]
 		fmt.Fprintf(&sb, "%d%v%v%v;", c.R, c.Comb, c.S, c.Lock)
 	}
-	fmt.Fprintf(&sb, "%v%d%d", d.sh.Default, d.cx, d.cy)
+	fmt.Fprintf(&sb, "%v%d%d|%v%d%d", d.sh.Default, d.cx, d.cy, d.altOK, d.altx, d.alty)
 	// logical buffer state (dirty flags) through the public accessors
 	lw, lh := d.s.Size()
 	fmt.Fprintf(&sb, "|%dx%d", lw, lh)
@@ -205,7 +207,9 @@ func (d *dsys) compare(o op) (string, string) {
 	if in && (!vis || x != d.cx || y != d.cy) {
 		return "sim-cursor", fmt.Sprintf("after %v: ShowCursor(%d,%d) was requested, GetCursor = (%d,%d,%v)", o, d.cx, d.cy, x, y, vis)
 	}
-	if !in && vis {
+	if !in && vis && d.altOK && x == d.altx && y == d.alty && x < d.sh.W && y < d.sh.H {
+		// the request made before SetSize is still honoured: as right as resetting it
+	} else if !in && vis {
 		return "sim-cursor", fmt.Sprintf("after %v: the requested cursor (%d,%d) is off-screen but GetCursor reports it visible at (%d,%d)", o, d.cx, d.cy, x, y)
 	}
 	return "", ""
@@ -237,6 +241,7 @@ func (d *dsys) Apply(i int) (sig, desc string) {
 	case "cursor":
 		d.s.ShowCursor(o.x, o.y)
 		d.cx, d.cy = o.x, o.y
+		d.altOK = false
 	case "lock":
 		d.s.LockRegion(o.x, o.y, o.w, o.h, o.lock)
 		d.sh.LockRegion(o.x, o.y, o.w, o.h, o.lock)
@@ -258,7 +263,10 @@ func (d *dsys) Apply(i int) (sig, desc string) {
 			}
 		}
 		d.sh.Resize(o.w, o.h)
-		d.cx, d.cy = -1, -1 // SetSize is documented to reset the cursor; the oracle follows
+		if d.cx >= 0 && d.cy >= 0 {
+			d.altx, d.alty, d.altOK = d.cx, d.cy, true
+		}
+		d.cx, d.cy = -1, -1 // SetSize resets the cursor in this implementation; keeping the request is accepted too
 		if changed {
 			d.pendingResize = append(d.pendingResize, [2]int{o.w, o.h})
 		}
@@ -552,10 +560,94 @@ func injectSequences() {
 	}
 }
 
+// isolation: the fallback rules of one screen are its own. Every order of up to three
+// Register/Unregister calls on screen A (a built-in fallback rune and a new one) must leave
+// a second screen B, created before or after them, drawing with the built-in rules, and the
+// package-level default table untouched.
+func isolation() {
+	if *hc.Shard != 0 {
+		return
+	}
+	defaults := map[rune]string{}
+	for k, v := range tcell.RuneFallbacks {
+		defaults[k] = v
+	}
+	type fop struct {
+		name string
+		do   func(s tcell.SimulationScreen)
+	}
+	fops := []fop{
+		{"Unregister(RuneULCorner)", func(s tcell.SimulationScreen) { s.UnregisterRuneFallback(tcell.RuneULCorner) }},
+		{"Register(RuneULCorner,\"#\")", func(s tcell.SimulationScreen) { s.RegisterRuneFallback(tcell.RuneULCorner, "#") }},
+		{"Register(U+0416,\"Z\")", func(s tcell.SimulationScreen) { s.RegisterRuneFallback(0x0416, "Z") }},
+		{"Unregister(U+0416)", func(s tcell.SimulationScreen) { s.UnregisterRuneFallback(0x0416) }},
+	}
+	mk := func() tcell.SimulationScreen {
+		s := tcell.NewSimulationScreen("US-ASCII")
+		if err := s.Init(); err != nil {
+			panic(err)
+		}
+		s.SetSize(2, 1)
+		return s
+	}
+	var seqs [][]int
+	var rec func(cur []int)
+	rec = func(cur []int) {
+		if len(cur) > 0 {
+			seqs = append(seqs, append([]int(nil), cur...))
+		}
+		if len(cur) == 3 {
+			return
+		}
+		for i := range fops {
+			rec(append(cur, i))
+		}
+	}
+	rec(nil)
+	for _, sq := range seqs {
+		for _, bFirst := range []bool{true, false} {
+			w.R.Evaluations++
+			var b tcell.SimulationScreen
+			if bFirst {
+				b = mk()
+			}
+			a := mk()
+			var names []string
+			for _, i := range sq {
+				fops[i].do(a)
+				names = append(names, fops[i].name)
+			}
+			if !bFirst {
+				b = mk()
+			}
+			b.SetContent(0, 0, tcell.RuneULCorner, nil, tcell.StyleDefault)
+			b.SetContent(1, 0, 0x0416, nil, tcell.StyleDefault)
+			b.Show()
+			cells, _, _ := b.GetContents()
+			got := string(cells[0].Bytes) + string(cells[1].Bytes)
+			if got != "+?" {
+				w.Violation("sim-fallback-shared", fmt.Sprintf("after %v on one simulation screen, another screen (created %s) draws U+250C, U+0416 in US-ASCII as %q, want \"+?\" (built-in fallback, none)", names, map[bool]string{true: "before", false: "after"}[bFirst], got), nil)
+			}
+			if len(tcell.RuneFallbacks) != len(defaults) || tcell.RuneFallbacks[tcell.RuneULCorner] != defaults[tcell.RuneULCorner] {
+				w.Violation("sim-fallback-global", fmt.Sprintf("after %v on a simulation screen the package-level RuneFallbacks table changed", names), nil)
+				for k := range tcell.RuneFallbacks {
+					delete(tcell.RuneFallbacks, k)
+				}
+				for k, v := range defaults {
+					tcell.RuneFallbacks[k] = v
+				}
+			}
+			a.Fini()
+			b.Fini()
+			w.AddDistinct(1)
+		}
+	}
+}
+
 func main() {
 	w = hc.Start("C18")
 	w.R.Rule = "draw histories: BFS depth 4 (5) on the real SimulationScreen in UTF-8, ISO8859-1 and US-ASCII over a wide-rune/style/fallback alphabet on 4x1 and a SetSize/cursor/lock alphabet on 3x2; after every Show/Sync GetContents must equal the shadow model shared with C01 (Runes, resolved Style, Bytes = charset encoding with fallback then '?'), GetCursor must reflect ShowCursor, SetSize must keep the overlapping region and produce exactly one EventResize with the new size by the next Show at the latest; injection: every printable character (BMP; thorough to U+2FFFF) of each of the 24 stateless charsets through InjectKeyBytes alone, all 2- and 3-character texts over up to 6 representatives per charset (every encoded length, multi-byte last included), and all sequences up to 3 of InjectKey/InjectMouse/InjectKeyBytes calls, compared with what PollEvent delivers. distinct_nontrivial = multi-byte characters injected + inject sequences + canonical draw states"
-	w.R.Assumptions = []string{"cells covered by a wide rune, locked cells and trailing padding of Bytes are not compared", "SetSize resets the cursor (as implemented and documented in the code); the oracle follows", "x/text codecs define the charsets"}
+	w.R.Assumptions = []string{"cells covered by a wide rune, locked cells and trailing padding of Bytes are not compared", "after SetSize the cursor may be reset (as implemented) or keep the earlier request: the statement fixes neither", "x/text codecs define the charsets"}
 	if *hc.Replay != "" {
 		fmt.Println("replay: the history is in the replay file; re-run ./vc C18")
 		return
@@ -563,6 +655,7 @@ func main() {
 	draws()
 	keyBytes()
 	injectSequences()
+	isolation()
 	for i := int64(0); i < w.R.States; i++ {
 		w.Distinct(uint64(*hc.Shard)<<40 | uint64(i))
 	}
